@@ -227,11 +227,10 @@ def run(ctx, prop):
             rc, err = run_bin(ctx.idlc[prof], os.path.join(tmp, "main.idl"), "c", os.path.join(tmp, "o.h"))
             ctx.bump("evaluations")
             crashed = rc == "timeout" or (isinstance(rc, int) and (rc < 0 or rc in (134, 139)))
-            if crashed:
-                if "K16-includedCycleCrash" in listed:
-                    known_seen["K16-includedCycleCrash"] = {"rc": rc}
-                else:
-                    oracle_fail.append({"case": {"kind": "included-cycle"}, "failures": [{"error": f"{prof} build crashed", "rc": rc}]})
+            if crashed or rc == 0:
+                # repaired (fix 7e13aff): refused with a diagnostic, no stack overflow
+                oracle_fail.append({"case": {"kind": "included-cycle"}, "failures": [
+                    {"error": f"{prof} build " + ("crashed on" if crashed else "accepted") + " a cyclic struct of an included file used as a parameter type", "rc": rc}]})
     known_lines = []
     for kid, k in listed.items():
         if kid in known_seen:
